@@ -47,12 +47,12 @@ func (r *Recorder) Run() {
 
 // Runtime collects what the workflow program itself observes.
 type Runtime struct {
-	Recorded    map[string][]string // "producer.port->consumer.port" -> paths in arrival order
-	RunReturned bool
-	ReturnStep  int
-	ReturnSnap  *simrt.Inode
+	Recorded      map[string][]string // "producer.port->consumer.port" -> paths in arrival order
+	RunReturned   bool
+	ReturnStep    int
+	ReturnSnap    *simrt.Inode
 	ReturnRunning []string // keys of commands still in flight when Run returned
-	WF          *sp.Workflow
+	WF            *sp.Workflow
 }
 
 func commandPattern(n *Node) string {
@@ -60,7 +60,11 @@ func commandPattern(n *Node) string {
 	b.WriteString("op " + n.Name)
 	for _, in := range n.Ins {
 		if in.Join {
-			fmt.Fprintf(&b, " -sep %s -j {i:%s|join:%s}", in.Sep, in.Name, in.Sep)
+			if in.Sep == " " {
+				fmt.Fprintf(&b, " -j {i:%s|join: }", in.Name)
+			} else {
+				fmt.Fprintf(&b, " -sep %s -j {i:%s|join:%s}", in.Sep, in.Name, in.Sep)
+			}
 		} else {
 			fmt.Fprintf(&b, " -i {i:%s}", in.Name)
 		}
@@ -122,7 +126,9 @@ func customFunc(n *Node) func(t *sp.Task) {
 	}
 }
 
-func recKey(prod, port, cons, cport string) string { return prod + "." + port + "->" + cons + "." + cport }
+func recKey(prod, port, cons, cport string) string {
+	return prod + "." + port + "->" + cons + "." + cport
+}
 
 // Build constructs the workflow. Everything here is public scipipe API.
 func Build(w *WF, rt *Runtime) *sp.Workflow {
@@ -160,6 +166,9 @@ func Build(w *WF, rt *Runtime) *sp.Workflow {
 		if n.Kind == KProc {
 			p := plain[i]
 			for _, in := range n.Ins {
+				if in.Unconnected {
+					continue
+				}
 				for _, e := range in.From {
 					up := procs[e.Node].OutPort(e.Port)
 					if w.Nodes[e.Node].Rec {
@@ -184,6 +193,29 @@ func Build(w *WF, rt *Runtime) *sp.Workflow {
 			}
 		} else {
 			connectComponent(wf, w, i, procs, rt)
+		}
+	}
+	// terminal recorders: out-ports of recording nodes that nobody consumes
+	consumed := map[Edge]bool{}
+	for i := range w.Nodes {
+		for _, in := range w.Nodes[i].Ins {
+			for _, e := range in.From {
+				consumed[e] = true
+			}
+		}
+	}
+	for i := range w.Nodes {
+		n := &w.Nodes[i]
+		if !n.Rec || n.Kind != KProc {
+			continue
+		}
+		for _, o := range n.Outs {
+			if consumed[Edge{i, o.Name}] || o.Stream {
+				continue
+			}
+			recN++
+			r := newRecorder(wf, fmt.Sprintf("rec%d", recN), recKey(n.Name, o.Name, "sink", ""), rt)
+			r.InPort("in").From(procs[i].OutPort(o.Name))
 		}
 	}
 	return wf
